@@ -25,6 +25,9 @@ def evaluate(lines):
             want = "R" if f[2] == "true" else "P"
             if f[4] != want:
                 bad.append("Assume/Assert: " + l)
+        elif f[0] == "P":
+            if "wrong=0" not in f:
+                bad.append("UInt64ToString called from 8 goroutines at once: " + l)
         elif f[0] == "W":
             if "HUNG" in l or "held=true" not in l or "relock=ok" not in l:
                 bad.append("WaitTimeout (lock not held / not released / hung): " + l)
@@ -49,7 +52,7 @@ def run_once(bins, bdir, seed, n):
     mism = [l for l in out2.splitlines() if l.startswith("MISMATCH")]
     done = [l for l in out2.splitlines() if l.startswith("DONE")]
     st = dict(kv.split("=", 1) for kv in done[0].split()[1:]) if done else {}
-    bad = ["UInt64ToString: " + m for m in mism] + evaluate([l for l in lines if l[0] in "MAW"])
+    bad = ["UInt64ToString: " + m for m in mism] + evaluate([l for l in lines if l[0] in "MAWP"])
     return lines, bad, st
 
 
@@ -73,7 +76,7 @@ def run(ctx):
         again = {key(b) for b in bad2 if timing(b)}
         bad = [b for b in bad if not timing(b) or key(b) in again]
     ctx.cov["timing_scenarios_rerun"] = retried
-    other = [l for l in (lines or []) if l[0] in "MAW"]
+    other = [l for l in (lines or []) if l[0] in "MAWP"]
     ctx.cov.update({
         "evaluations": int(st.get("cases", 0)) + len(other),
         "distinct_nontrivial": int(st.get("cases", 0)) + len(other) - 2,
